@@ -116,6 +116,13 @@ wrap around `size_t` (the constructor rejects larger capacities) -/
 theorem new_capacity_bytes (cap : Nat) (exGe : Nat → Bool) (m : Mem) (h : (PQueue.new cap exGe m).1 = .ok) :
     0 < cap ∧ cap * PQueue.ptrSize < 2 ^ 64 := PQueue.new_ok_bytes cap exGe m h
 
+/-- a successful growth also keeps `capacity * sizeof(void*)` representable; a growth whose new
+capacity would not be is answered with `CC_ERR_MAX_CAPACITY` before anything is allocated
+(covered by `push_refused_inert`: the queue is unchanged) -/
+theorem growth_capacity_bytes (grow : Nat → Nat) (q : PQueue) (m : Mem)
+    (h : (PQueue.expandCapacity grow q m).1 = .ok) :
+    (PQueue.expandCapacity grow q m).2.1.capacity * PQueue.ptrSize < 2 ^ 64 := PQueue.expand_ok_bytes grow q m h
+
 /-- **Refused growth is atomic** in the strongest sense: status `CC_ERR_ALLOC` (or
 `CC_ERR_MAX_CAPACITY`) means that every field of the queue is unchanged -/
 theorem push_refused_inert {cmp : Nat → Nat → Int} (tp : TotalPreorder cmp) (grow : Nat → Nat) (hg : PQueue.GrowOk grow)
